@@ -116,6 +116,13 @@ def run_case(case, infos):
             for k in range(rng.randrange(1, 8)):
                 attr, f = rng.choice([x for x in funcs if x[1].name != "VERSION"])
                 s.dev.emit_at(t + rng.randrange(0, 3_000_000), f"@{cid}:{f.name}={AS.valid_value(rng, f)}\r\n".encode("utf-8"))
+        # the reader (or the OS) stalls in the middle of a reply line for a while; everything the device sends meanwhile
+        # reaches the port as one burst afterwards (several hundred bytes for the larger subunits)
+        hrng = random.Random(case["seed"] ^ 0xB0257)
+        n_plan = len(expected_plan([x for k, x in enumerate(funcs) if k not in set(case.get("deleted", []))])) + 1
+        if hrng.random() < 0.25 and case["version"] == "yes":
+            case["burst_after_stall"] = {"after_bytes": hrng.randrange(3, 120), "for_us": hrng.choice([300_000, 1_000_000] + ([2_500_000] if n_plan >= 8 else []))}
+            s.dev.hold = {"after_bytes": s.dev.n_bytes + case["burst_after_stall"]["after_bytes"], "for_us": case["burst_after_stall"]["for_us"]}
         # unsolicited reports that keep coming at a steady pace for longer than any time-out (someone turning the
         # volume knob, a track playing): drawn from a generator of its own
         trng = random.Random(case["seed"] ^ 0x7AFF1C)
@@ -189,12 +196,17 @@ def monitor(s, case, infos, rx):
         if reply_line_idx is None or reply_line_idx > s.i_end:
             return f"initialize() of {cls.__name__} returned before the reply to its own synchronisation query was received"
         # every value delivered before the sync reply is readable at return
+        # "every value the device sent before it": read from the bytes the device emitted (not from what the library
+        # made of them), up to and including the emission that carried the synchronisation reply
         last = {}
-        for i in range(s.i_start, reply_line_idx):
-            if ev[i]["k"] == "Line":
-                t = split_sfv(ev[i]["text"])
-                if t and t[0] == cid:
-                    last[t[1]] = t[2]
+        emit_idx = emit[0] if (ver_write and emit) else reply_line_idx
+        sent = b"".join(bytes(ev[i]["data"]) for i in range(s.i_start, emit_idx + 1) if ev[i]["k"] == "DevEmit")
+        for ln in sent.split(b"\r\n"):
+            if ln.startswith(b"@SYS:VERSION="):
+                continue
+            t = split_sfv(ln.decode("utf-8", "replace"))
+            if t and t[0] == cid:
+                last[t[1]] = t[2]
         cache = dict(s.cache_at_return)
         removed = {funcs[k][1].name for k in case.get("deleted", [])}
         for attr, f in funcs:
